@@ -67,6 +67,8 @@ func main() {
 		rwMode(args)
 	case "oracle":
 		oracleMode(args)
+	case "c18":
+		c18Mode(args)
 	case "c14":
 		c14Mode(args)
 	case "c13":
